@@ -5,6 +5,8 @@ import re
 import time
 
 VERIF = os.path.dirname(os.path.dirname(os.path.abspath(__file__)))
+# developer runs against a scratch worktree (PLV_REPO) must not overwrite the evidence of /repo
+EVDIR = os.path.join(VERIF, "evidence") if os.environ.get("PLV_REPO", "/repo") == "/repo" else os.path.join(VERIF, ".work", "evidence-dev")
 
 
 class Check:
@@ -66,12 +68,12 @@ class Check:
                 known_hit.append((key, known[key], objs))
             else:
                 violations.append((key, objs))
-        os.makedirs(os.path.join(VERIF, "evidence", "replay"), exist_ok=True)
+        os.makedirs(os.path.join(EVDIR, "replay"), exist_ok=True)
         lines = []
         for key, f, objs in known_hit:
             lines.append("KNOWN-FINDING: property=%s %s %s" % (self.pid, key, f["what"]))
         for key, objs in violations:
-            rp = os.path.join(VERIF, "evidence", "replay", "%s-%s.json" % (self.pid, re.sub(r"[^A-Za-z0-9_.-]+", "_", key)[:150]))
+            rp = os.path.join(EVDIR, "replay", "%s-%s.json" % (self.pid, re.sub(r"[^A-Za-z0-9_.-]+", "_", key)[:150]))
             with open(rp, "w") as fh:
                 json.dump({"property": self.pid, "key": key, "tier": self.tier, "reports": objs,
                            "rule_text": self.rules_text.get(objs[0]["rule"].split("/")[0], "")}, fh, indent=1, default=str)
@@ -113,7 +115,7 @@ class Check:
             "wall_s": round(time.time() - self.t0, 3),
             "violations": len(violations),
         }
-        with open(os.path.join(VERIF, "evidence", "%s.json" % self.pid), "w") as fh:
+        with open(os.path.join(EVDIR, "%s.json" % self.pid), "w") as fh:
             json.dump(ev, fh, indent=1, default=str)
         for l in lines:
             print(l)
@@ -130,14 +132,14 @@ def load_known_findings():
 
 def broken(pid, tier, msg):
     """the checker itself could not run (fail closed): report as a violation of the property's check"""
-    os.makedirs(os.path.join(VERIF, "evidence", "replay"), exist_ok=True)
-    rp = os.path.join(VERIF, "evidence", "replay", "%s-checker-error.json" % pid)
+    os.makedirs(os.path.join(EVDIR, "replay"), exist_ok=True)
+    rp = os.path.join(EVDIR, "replay", "%s-checker-error.json" % pid)
     with open(rp, "w") as fh:
         json.dump({"property": pid, "error": msg}, fh, indent=1)
     ev = {"property_id": pid, "tier": tier, "seed": 0, "level": "other",
           "coverage": {"explanation": "checker could not complete: " + msg[:2000], "evaluations": 1,
                        "distinct_nontrivial": 2}, "wall_s": 0.0, "violations": 1}
-    with open(os.path.join(VERIF, "evidence", "%s.json" % pid), "w") as fh:
+    with open(os.path.join(EVDIR, "%s.json" % pid), "w") as fh:
         json.dump(ev, fh, indent=1)
     print("checker error: " + msg)
     print("VIOLATION property=%s replay=%s" % (pid, rp))
